@@ -191,14 +191,14 @@ func minInt(a, b int) int {
 // matching: real rpc.Client against a scripted peer
 
 type callSpec struct {
-	Kind   string `json:"kind"` // read write sync unmap ping
-	Block  int    `json:"block"`
-	Len    int    `json:"len"`   // bytes
-	Reply  string `json:"reply"` // response error eof
-	Pos    int    `json:"pos"`   // sort key for reply order
-	Dup    bool   `json:"dup"`   // reply sent twice
-	Stall  bool   `json:"stall"` // never answered (failure scripts)
-	Late   bool   `json:"late"`  // issued after the failure was observed
+	Kind  string `json:"kind"` // read write sync unmap ping
+	Block int    `json:"block"`
+	Len   int    `json:"len"`   // bytes
+	Reply string `json:"reply"` // response error eof
+	Pos   int    `json:"pos"`   // sort key for reply order
+	Dup   bool   `json:"dup"`   // reply sent twice
+	Stall bool   `json:"stall"` // never answered (failure scripts)
+	Late  bool   `json:"late"`  // issued after the failure was observed
 }
 
 type peerScript struct {
